@@ -19,7 +19,7 @@ COMPONENTS = {
     'stub': ['OS thread scheduling', 'clocks', 'os.urandom', 'object store (SimStore)'],
 }
 ASSUMPTIONS = ['scrypt n capped at 2**10 (cost)', 'the probe file has a single chunk, so tiny digest sizes cannot collide']
-PROBES = ['near_miss_unlock_tried', 'init_rejected', 'init_accepted', 'addkey_rejected', 'addkey_accepted', 'cross_unlock_tried']
+PROBES = ['near_miss_unlock_tried', 'init_rejected', 'init_accepted', 'addkey_rejected', 'addkey_accepted', 'cross_unlock_tried', 'foreign_repository_in_cache']
 TIERS = {'quick': {'budget_s': 60, 'batch': 20}, 'thorough': {'budget_s': 600, 'batch': 40}}
 
 BAD_INTS = [0, -1, -64, 1, 3, 7, 8.5, 64.0, '64', True, None, 10**6, 4097]
@@ -113,7 +113,8 @@ def gen_case(seed, tier):
     return {'seed': seed, 'sched_seed': seed, 'settings': gen_settings(rng), 'keys': keys, 'long_passwords': long_pw,
             'flavour': rng.choice(['sync', 'async']), 'N': rng.choice([1, 2, 3]),
             'opts': world.SchedOpts.swarm(rng).as_dict(),
-            'probe_size': rng.choice([0, 1, 3, 4, 5])}
+            'probe_size': rng.choice([0, 1, 3, 4, 5]),
+            'foreign_cache': substream(seed, 'c17-cache').random() < 0.25}
 
 
 def _safe_for_sim(settings):
@@ -151,7 +152,8 @@ def _run_case(case):
         enc_requested = settings.get('encryption', {}) is not None
         # long pass-phrases that agree on their first 64+ bytes (key files, sentences)
         stem = (b'correct horse battery staple ' * 4)[:70] if case.get('long_passwords') else b''
-        owner = world.Client('owner', password=stem + b'owner password', concurrent=case['N'])
+        cache = str(W.dir / 'cache') if case.get('foreign_cache') else None
+        owner = world.Client('owner', password=stem + b'owner password', concurrent=case['N'], cache_dir=cache)
         r = W.init(owner, settings, opts)
         journal = list(W.state.journal)
         if r.hang is not None or r.crashed:
@@ -166,13 +168,22 @@ def _run_case(case):
         probes['init_accepted'] = 1
         clients = [owner]
         encrypted = r.value['key'] is not None
+        if cache is not None:
+            # the same user creates another repository of the other kind afterwards, with the same (per-user) cache directory
+            W2 = harness.World(case['sched_seed'] ^ 0x7777, 'c17b', flavour=case['flavour'], lat_kind='zero', scratch=False)
+            W2.dir = W.dir
+            other = world.Client('other', password=None if encrypted else b'other password', concurrent=1, cache_dir=cache)
+            r2 = W2.init(other, {'encryption': None} if encrypted else {'encryption': {'kdf': {'name': 'scrypt', 'n': 2, 'r': 1}}},
+                         world.SchedOpts.sequential())
+            if r2.ok:
+                probes['foreign_repository_in_cache'] = 1
         if not _usable(W, owner, case, opts, viol, 'after init', settings):
             return _res(W, viol, probes, case, 'accepted-unusable')
         # ---- add-key chain
         if encrypted:
             for i, k in enumerate(case['keys']):
                 parent = clients[k['parent'] % len(clients)]
-                new = world.Client(f'k{i}', password=stem + f'password of key {i}'.encode(), concurrent=case['N'])
+                new = world.Client(f'k{i}', password=stem + f'password of key {i}'.encode(), concurrent=case['N'], cache_dir=cache)
                 before = len(W.state.journal)
                 ks = _safe_for_sim(copy.deepcopy(k['settings'])) if k['settings'] else None
                 r = W.add_key(parent, new, shared=k['kind'] == 'shared', clone=k['kind'] == 'clone', settings=ks, opts=opts)
